@@ -1,5 +1,5 @@
 INFO = {
     "level": "proof",
-    "level_text": "placeholder",
-    "level_note": "placeholder",
+    "level_text": "transition_previous_to_next returns a state only if exit and enter both did, otherwise nothing (never a state and an error); every enter/exit/update has the same shape clause; apply_instructions is proved for any number of instructions (two inductive loop invariants) to keep the state well-formed and, for one arbitrary instruction of any class from any activity (loops unrolled), `if the instructed vehicle is exactly as it was, the whole SimulationState is unchanged`; the instruction stack operations are proved to push on the head and pop the head (last generated wins, the driver's instruction is pushed last).",
+    "level_note": "instruction generators are an open interface; `one instruction per vehicle` is the precondition of apply_instructions established by StepSimulation.update's loop invariant; uuid4() values are assumed fresh; pooling instruction assumed.",
 }
